@@ -177,6 +177,12 @@ void Server::Impl::onTcpReceived(const TcpServer::ConnToken &ct, Buffer &buff)
             auto sp_ctx = make_shared<Context>(wp_parent_, ct, conn->req_index++, req);
             handle(sp_ctx, 0);
 
+            //! 标记了close的请求之后的数据都不应再解析
+            if (conn->close_index != numeric_limits<int>::max()) {
+                buff.hasReadAll();
+                break;
+            }
+
         } else if (conn->req_parser.state() == RequestParser::State::kFail) {
             LogNotice("parse http from %s fail", tcp_server_.getClientAddress(ct).toString().c_str());
             tcp_server_.disconnect(ct);
